@@ -69,7 +69,7 @@ pub fn handle(op: &str, req: &Value) -> Option<Value> {
         return None;
     }
     let store = TensorStore::new();
-    let cfg = BlobConfig { chunk_size: CS, ..BlobConfig::default() };
+    let cfg = BlobConfig { chunk_size: CS, gc_min_age: Duration::from_secs(0), ..BlobConfig::default() };
     let blob = Arc::new(match block_on(BlobStore::new(store.clone(), cfg)) { Ok(b) => b, Err(e) => return Some(json!({"error": e.to_string()})) });
     let mut ids: Vec<String> = vec![];
     for l in req["artifacts"].as_array().into_iter().flatten() {
@@ -116,6 +116,11 @@ pub fn handle(op: &str, req: &Value) -> Option<Value> {
             a_out = json!(run(&blob, req["a"].as_str().unwrap_or("store"), target(&req["a_target"])));
             *tensor_blob::VERIF_REFCOUNT_WINDOW.write().unwrap() = None;
             b_out = match slot.lock().unwrap().take() { Some(h) => json!(h.join().unwrap_or_else(|_| Err("panicked".into()))), None => json!("window not reached") };
+        },
+        "gc" => {
+            // chunk timestamps are whole seconds and the collector wants `created < now - min_age`
+            std::thread::sleep(Duration::from_millis(1100));
+            a_out = json!(format!("{:?}", block_on(blob.gc())));
         },
         "store_chunk" => {
             // the writer has already stored `writer_already_stored` in this artifact: one put whose data repeats those chunks
